@@ -570,8 +570,10 @@ func (ka *ecdheKeyAgreement) processServerKeyExchange(config *Config, clientHell
 
 	var sigType uint8
 	var sigHash crypto.Hash
+	var wireSigAndHash SigAndHash // SignatureAndHashAlgorithm as sent by the server, for the log
 	if ka.version >= VersionTLS12 {
 		signatureAlgorithm := SignatureScheme(sig[0])<<8 | SignatureScheme(sig[1])
+		wireSigAndHash = SigAndHash{Signature: sig[1], Hash: sig[0]}
 		sig = sig[2:]
 		if len(sig) < 2 {
 			return errServerKeyExchange
@@ -609,8 +611,7 @@ func (ka *ecdheKeyAgreement) processServerKeyExchange(config *Config, clientHell
 	case *signedKeyAgreement:
 		auth.raw = sig
 		auth.valid = ka.verifyError == nil
-		auth.sh.Signature = sigType
-		auth.sh.Hash = uint8(sigHash)
+		auth.sh = wireSigAndHash
 	default:
 		break
 	}
